@@ -3,8 +3,9 @@
    tokens).  Gen.Elements, Gen.TokenTables and Gen.SmartsTables are regenerated from /repo on every run. *)
 From Coq Require Import ZArith List String Ascii Bool Permutation.
 From Gen Require Import Elements TokenTables SmartsTables.
-From Model Require Import PyBase Graph PeriodicTable Tokenize Smarts Query.
-From Proofs Require Import QueryProofs TokenizeProofs SmartsProofs SmartsRoundtrip.
+From Model Require Import PyBase Graph PeriodicTable Tokenize Smarts Query SmartsFull.
+From Model Require Parser.
+From Proofs Require Import QueryProofs TokenizeProofs SmartsProofs SmartsRoundtrip SmartsParser SmartsFullProofs SmartsDenote SmartsDenoteText.
 Import ListNotations.
 Open Scope Z_scope.
 
@@ -188,7 +189,8 @@ Theorem C08_smarts_sources_pinned :
   ring_sizes_tests = [("Lt"%string, 3); ("NotEq"%string, 0)] /\ charge_tests = [("Gt"%string, 4); ("Lt"%string, -4)] /\
   st_replace_dict = TokenTables.replace_dict /\ st_not_dict = TokenTables.not_dict /\
   validate_guards = ["value is None"%string; "isinstance(value, int)"%string; "isinstance(value, (tuple, list))"%string] /\
-  hybridization_guards = validate_guards /\ ring_sizes_guards = validate_guards.
+  hybridization_guards = validate_guards /\ ring_sizes_guards = validate_guards /\
+  smarts_cx_radicals_src = TokenTables.cx_radicals_src.
 Proof. exact smarts_sources_pinned. Qed.
 Print Assumptions C08_smarts_sources_pinned.
 
@@ -270,3 +272,100 @@ Theorem C08_validate_api_spec : forall lo hi,
      (forall x, In x r <-> In x l) /\ (forall x, In x l -> lo <= x <= hi) /\ nodup_z l = true).
 Proof. exact validate_api_spec. Qed.
 Print Assumptions C08_validate_api_spec.
+
+(* ---------------------------------------------------------------------------------------------------------------- *)
+(* the WHOLE of smarts() (Model.SmartsFull.smarts_full: smarts_tokenize, parser(tokens, False), the atom loop with add_atom, the
+   cis/trans flags, add_bond) for a text without white space *)
+
+(* parser() on ANY non-empty list of smarts_tokenize tokens (atoms, int bonds, order lists, ring-marked QueryBonds, direction
+   marks, closures, brackets, dots): a record whose bonds join atom positions, or IncorrectSmiles (the C03 proof covers the
+   tokens of smiles_tokenize only) *)
+Theorem C08_smarts_parse_good : forall ts strong, forallb qwfb ts = true -> ts <> [] ->
+  match Parser.parse ts strong with
+  | Ok p => Parser.p_atoms p <> [] /\ Forall (SmartsParser.bwf (Z.of_nat (List.length (Parser.p_atoms p)))) (Parser.p_bonds p)
+  | Err e => vee e = true
+  end.
+Proof. exact SmartsParser.parse_good. Qed.
+Print Assumptions C08_smarts_parse_good.
+
+(* for EVERY text: a query container, or IncorrectSmiles / IncorrectSmarts / ValueError, or KeyError *)
+Theorem C08_smarts_full_errors : forall s e, smarts_full s = Err e -> vee e = true \/ e = KeyError.
+Proof. exact smarts_full_errors. Qed.
+Print Assumptions C08_smarts_full_errors.
+
+(* smarts_total for the whole function is FALSE for the unchanged code (known finding smarts-stereo-popitem-keyerror):
+   popitem() on a direction-mark dictionary that a neighbouring bond already emptied *)
+Theorem C08_smarts_full_total_refuted :
+  smarts_full "C/C=C(/C)C(/C)=C/C" = Err KeyError /\ smarts_full "F/C(=C/F)=C/F" = Err KeyError.
+Proof. exact smarts_full_total_refuted. Qed.
+Print Assumptions C08_smarts_full_total_refuted.
+
+(* ... and holds for every text whose parse leaves no direction marks (in particular every text without / and \) *)
+Theorem C08_smarts_full_total_partial : forall s e,
+  (forall ts toks ps pr, tokenize_raw s = Ok ts -> split_tokens ts = Ok (toks, ps) -> Parser.parse toks false = Ok pr ->
+     Parser.p_stereo_bonds pr = []) ->
+  smarts_full s = Err e -> vee e = true.
+Proof. exact smarts_full_total_partial. Qed.
+Print Assumptions C08_smarts_full_total_partial.
+
+(* ---------------------------------------------------------------------------------------------------------------- *)
+(* denotation of linear patterns.  Token level: for ANY chain  atom (bond-token? atom)*  of smarts_tokenize tokens (bond tokens of
+   type 1 / 10 / 12; no direction marks, branches, closures) whose atoms can be built and whose explicit atom numbers are
+   distinct, the rest of smarts() builds exactly these atoms in order and exactly one bond between consecutive atoms, with the
+   query bond of its token (single when there is none) and no cis/trans flag *)
+Theorem C08_chain_denotation : forall p0 rest q0 qs bqs,
+  Forall link_ok rest ->
+  Forall2 (fun p q => build_atom p = Ok q) (p0 :: map snd rest) (q0 :: qs) ->
+  NoDup (explicit_maps (p0 :: map snd rest)) ->
+  Forall2 (fun x q => qbond_of_payload (bond_value (fst x)) = Ok q) rest bqs ->
+  full_of_tokens (chain_tokens p0 rest) (p0 :: map snd rest) =
+  Ok (map (fun pq => atom_result (fst pq) (snd pq)) (combine (p0 :: map snd rest) (q0 :: qs)), chain_sbonds 1 bqs).
+Proof. exact chain_denotation. Qed.
+Print Assumptions C08_chain_denotation.
+
+(* Text level: for EVERY text  [body0] (bond-spelling [body])*  of any length, where each bond spelling is nothing, - = # : ~,
+   a two-symbol list, !- != !# !:, optionally followed by ;@ or ;!@, and each body is bracket-free, non-empty and accepted by
+   _query_parse: smarts() builds exactly the atoms of the bodies and, between consecutive atoms, the bond with the documented
+   orders and ring mark (denote_bond) *)
+Theorem C08_chain_text_denotation : forall body0 p0 links q0 qs,
+  body_ok body0 p0 -> Forall tlink_ok links ->
+  Forall2 (fun p q => build_atom p = Ok q) (p0 :: map tl_parsed links) (q0 :: qs) ->
+  NoDup (explicit_maps (p0 :: map tl_parsed links)) ->
+  smarts_full (string_of_list_ascii (chain_text body0 links)) =
+  Ok (map (fun pq => atom_result (fst pq) (snd pq)) (combine (p0 :: map tl_parsed links) (q0 :: qs)),
+      chain_sbonds 1 (map (fun x => denote_bond (tl_bond x)) links)).
+Proof. exact chain_text_denotation. Qed.
+Print Assumptions C08_chain_text_denotation.
+
+Theorem C08_chain_text_example :
+  body_ok (s2l "C;D2") ex_p0 /\ Forall tlink_ok ex_links /\
+  string_of_list_ascii (chain_text (s2l "C;D2") ex_links) = "[C;D2]-,=;!@[N,O;h1]!:[#8][C;D2]"%string /\
+  smarts_full "[C;D2]-,=;!@[N,O;h1]!:[#8][C;D2]" =
+  Ok ([(QElem 6 None (mkQX 0 false [2] [] [] [] [] false), None); (QList [7; 8] (mkQX 0 false [] [] [1] [] [] false), None);
+       (QElem 8 None (mkQX 0 false [] [] [] [] [] false), None); (QElem 6 None (mkQX 0 false [2] [] [] [] [] false), None)],
+      [mkSB 1 0 (mkQB [1; 2] (Some false)) None; mkSB 2 1 (mkQB [1; 2; 3] None) None; mkSB 3 2 (mkQB [1] None) None]).
+Proof. exact chain_text_example. Qed.
+Print Assumptions C08_chain_text_example.
+
+(* ---------------------------------------------------------------------------------------------------------------- *)
+(* CXSMARTS radicals: smarts(smr + ' ' + cx) (Model.SmartsFull.smarts_cx; the pattern scanner is Model.Reader.rad_findall, the
+   pattern text of smarts.py is pinned equal to that of smiles.py) *)
+Theorem C08_smarts_cx_none : forall s, smarts_cx s None = smarts_full s.
+Proof. exact smarts_cx_none. Qed.
+Print Assumptions C08_smarts_cx_none.
+
+Theorem C08_smarts_cx_errors : forall s cx e, smarts_cx s cx = Err e -> vee e = true \/ e = KeyError.
+Proof. exact smarts_cx_errors. Qed.
+Print Assumptions C08_smarts_cx_errors.
+
+Theorem C08_smarts_cx_examples :
+  smarts_cx "[C;D2]C"%string (Some "|^1:1|"%string) =
+    Ok ([(QElem 6 None (mkQX 0 false [2] [] [] [] [] false), None); (QElem 6 None (mkQX 0 true [] [] [] [] [] false), None)],
+        [mkSB 1 0 (mkQB [1] None) None]) /\
+  smarts_cx "CN"%string (Some "|^1:0,1|"%string) =
+    Ok ([(QElem 6 None (mkQX 0 true [] [] [] [] [] false), None); (QElem 7 None (mkQX 0 true [] [] [] [] [] false), None)],
+        [mkSB 1 0 (mkQB [1] None) None]) /\
+  smarts_cx "C"%string (Some "|^1:5|"%string) = Err IncorrectSmarts /\ smarts_cx "[M]"%string (Some "|^1:0|"%string) = Err IncorrectSmarts /\
+  smarts_cx "C"%string (Some "^1:0"%string) = smarts_full "C"%string.
+Proof. exact smarts_cx_examples. Qed.
+Print Assumptions C08_smarts_cx_examples.
